@@ -881,6 +881,69 @@ def run(only=None):
             s.merge(acc)
         s.done()
 
+
+    if want("front_end_histories_with_failing_calls"):
+        from mc import hist
+
+        class _LateSlices:
+            """a bit container whose slices beyond the first octet cannot be read"""
+
+            def __init__(self, b):
+                self.b = b
+
+            def __len__(self):
+                return len(self.b)
+
+            def __getitem__(self, i):
+                if isinstance(i, slice) and (i.start or 0) >= 8:
+                    raise ValueError("late")
+                return self.b[i]
+
+            def bytereverse(self):
+                return None
+
+        s = rep.sub("front_end_histories_with_failing_calls",
+                    "every front end and every engine (5 widths x bitwise/table) x 9 arguments that make the call fail, early or in the middle "
+                    "of the message (non-bit element in a later octet, slice that cannot be read, wrong container, None, out-of-range "
+                    "octet), followed by all front ends and engines on valid input: each returns the defined CRC of its own input")
+        late_bits = [0, 1, 1, 0, 1, 0, 0, 1, 1, 1, 0, 0, 2, 0, 1, 1, 0, 0, 0, 1, 1, 1, 0, 1, 1, 0, 1, 0]
+        pb = {n: "1" + env.det_bits(f"c05-fail-{n}", n - 1) for n in (28, 87, 80, 136, 61)}
+        d16, d32 = bitarray(pb[80]).tobytes(), bitarray(pb[136]).tobytes()
+        probes = [
+            ("CRC8.calculate", lambda: (CRC8.calculate(bitarray(pb[28])), CRC8.check(bitarray(pb[28]), def_crc8(pb[28])))),
+            ("CRC9.calculate", lambda: CRC9.calculate(bitarray(pb[87]), CrcMasks.Rate34DataContinuation)),
+            ("CRC16.calculate", lambda: (CRC16.calculate(d16, CrcMasks.CSBK), CRC16.check(d16, def_crc16(d16, MASK_TABLE["CSBK"]), CrcMasks.CSBK))),
+            ("CRC32.calculate", lambda: (CRC32.calculate(d32), CRC32.check(d32, def_crc32(d32)))),
+        ]
+        want_probe = {"CRC8.calculate": (def_crc8(pb[28]), True), "CRC9.calculate": def_crc9_bits(pb[87], MASK_TABLE["Rate34DataContinuation"]),
+                      "CRC16.calculate": (def_crc16(d16, MASK_TABLE["CSBK"]), True), "CRC32.calculate": (def_crc32(d32), True)}
+        for lab, th in probes:
+            if th() != want_probe[lab]:
+                s.violation(f"front_end_not_the_defined_crc:{lab}", {"front_end": lab})
+        eng = []
+        for w_ in WIDTHS:
+          for mode in MODES:
+            cfg = LIBCFG[w_]
+            tb = mode == "table"
+            eng.append((f"engine_crc{w_}_{mode}", cfg, tb))
+            probes.append((f"engine_crc{w_}_{mode}", lambda cfg=cfg, tb=tb: BitCrcCalculator(cfg, table_based=tb).calculate_checksum(bitarray(pb[61])).to01()))
+        funcs = {
+            "CRC8.calculate": CRC8.calculate, "CRC8.check": lambda a: CRC8.check(a, 0x55),
+            "CRC9.calculate": lambda a: CRC9.calculate(a, CrcMasks.Rate34DataContinuation),
+            "CRC9.calculate_from_parts": lambda a: CRC9.calculate_from_parts(a, 3, CrcMasks.Rate12DataContinuation),
+            "CRC16.calculate": lambda a: CRC16.calculate(a, CrcMasks.CSBK), "CRC32.calculate": CRC32.calculate,
+        }
+        for lab, cfg, tb in eng:
+            funcs[lab] = lambda a, cfg=cfg, tb=tb: BitCrcCalculator(cfg, table_based=tb).calculate_checksum(a)
+        bad_args = [
+            ("late_non_bit_element", lambda: list(late_bits)), ("late_non_bit_element_x3", lambda: list(late_bits) * 3),
+            ("late_unreadable_slice_28", lambda: _LateSlices(bitarray(pb[28]))), ("late_unreadable_slice_87", lambda: _LateSlices(bitarray(pb[87]))),
+            ("late_bad_octet", lambda: [1, 2, 3, 4, 5, 6, 7, 8, 300, 10]), ("none", lambda: None), ("bytes_for_bits", lambda: b"\x01\x02\x03"),
+            ("str", lambda: "0101"), ("int", lambda: 5),
+        ]
+        hist.poisoned_histories(s, funcs, bad_args, probes)
+        s.done()
+
     if want("extreme_crc_values"):
         s = rep.sub("extreme_crc_values",
                     "messages constructed (GF(2) linear solve on the reference) so that the defined CRC is exactly all-zeros / all-ones: "
